@@ -35,6 +35,12 @@ CHECKS = {
  "C16": ("fault_enumeration", "runtime monitoring: complete bit-flip / tear / garbage sweeps of both header slots of real images, reopened through the real open path, judged by an independent header validator",
          "Images taken at commit boundaries of generated histories; for both slots all 672 single-bit flips, all 83 prefix tears, zero/garbage/random damage, slot copies, both slots damaged and txid wrap-around pairs are opened by the real code; the harness' own header validation decides the required winner; contents must equal the recorded state of that txid; no panic.",
          "DESIGN.md 4 (C16)", SIM),
+ "C02": ("exploration", "runtime monitoring: stamped-snapshot oracle in concurrent readers + porcupine linearizability check of the begin/commit history + Go race detector over a simulated (aliasing, poisoned-on-unmap) mmap, with yields injected at commit hook points",
+         "Free-running 1 writer x 1-4 readers under the race detector; every page carries (page, commit seq), readers verify the complete version vector of the state named by the root page twice per transaction; states of aborted/failed transactions and poisoned (unmapped) memory are violations; the begin/commit history is checked with porcupine; evidence lists the (reader event @ writer commit point) pairs observed. Sampled interleavings, not enumerated.",
+         "DESIGN.md 4 (C02)", SIM + "; Go race detector; porcupine v1.3.0"),
+ "C09": ("exploration", "runtime monitoring: Go race detector + writer-count monitor on hook events + lock-state hook at quiescent points + state-based deadlock detector, over N readers x M writers x Close stress",
+         "Free-running N readers x M writers (commit/rollback/close/failing commit) plus a concurrent File.Close and open-time max-size updates, always under the race detector with an Observer; monitors: at most one active writer (hook events), lock state idle when no transaction is open, deadlock declared only from state facts (no progress, all workers parked on go-txfile locks), any race report is a violation.",
+         "DESIGN.md 4 (C09)", SIM + "; Go race detector"),
  "C03": ("exploration", "runtime monitoring: model-based differential execution on a simulated disk with controlled writer stalls (+race detector slice)",
          "Real txfile code is driven by PRNG-generated transaction programs on a simulated disk; a sequential page model is compared in a read transaction after every transaction end, on every in-transaction read and after reopen, while a gate stalls the background writer so that several transactions' page writes share one writer batch. Held-on-explored-executions assurance; right level because the property quantifies over histories and writer timings that cannot be enumerated.",
          "DESIGN.md 4 (C03)", SIM),
